@@ -19,29 +19,29 @@ theorem takeIdent_lt (s : Str) (h : (takeIdent s).1.isEmpty = false) : (takeIden
   | nil => simp [h1] at h
   | cons a b => simp [h1] at this; omega
 
-/-- what a parser call may return: a strictly shorter rest, `fail`, or the known end-of-input crash
-(only in the unchanged code) -/
-def Good {α : Type} (fx : Bool) (o : Out (α × Str)) (n : Nat) : Prop :=
+/-- what a parser call may return: a strictly shorter rest or `fail` — never a crash (the three reads of
+`t.input[t.index]` in parseParamNodes are each behind an end-of-input check) -/
+def Good {α : Type} (o : Out (α × Str)) (n : Nat) : Prop :=
   match o with
   | .ok (_, s') => s'.length + 1 ≤ n
   | .fail => True
-  | .crash x => x = .paramsEof ∧ fx = false
+  | .crash _ => False
 
-theorem Good.mono {α : Type} {fx : Bool} {o : Out (α × Str)} {n m : Nat} (h : Good fx o n) (hnm : n ≤ m) : Good fx o m := by
+theorem Good.mono {α : Type} {o : Out (α × Str)} {n m : Nat} (h : Good o n) (hnm : n ≤ m) : Good o m := by
   cases o with
   | ok a => obtain ⟨_, s'⟩ := a; simp only [Good] at *; omega
   | fail => trivial
   | crash x => exact h
 
-theorem fin_good (fx : Bool) (name : Str) (params : Params) (s0 s2 : Str) (n : Nat)
+theorem fin_good (name : Str) (params : Params) (s0 s2 : Str) (n : Nat)
     (h : s2.length + 1 ≤ n) (h' : s2.length ≤ s0.length) :
-    Good fx (if s2.length ≤ s0.length then Out.ok (Node.mk name params (s0.take (s0.length - s2.length)), s2)
+    Good (if s2.length ≤ s0.length then Out.ok (Node.mk name params (s0.take (s0.length - s2.length)), s2)
              else Out.crash Site.inputSlice) n := by
   simp only [h', if_true, Good]; omega
 
-theorem parse_good (fx : Bool) : ∀ f : Nat,
-    (∀ s, s.length + 1 ≤ f → Good fx (parseClass fx f s) s.length) ∧
-    (∀ s acc, s.length + 2 ≤ f → Good fx (paramLoop fx f s acc) s.length) := by
+theorem parse_good : ∀ f : Nat,
+    (∀ s, s.length + 1 ≤ f → Good (parseClass f s) s.length) ∧
+    (∀ s acc, s.length + 2 ≤ f → Good (paramLoop f s acc) s.length) := by
   intro f
   induction f with
   | zero => exact ⟨fun s h => by omega, fun s acc h => by omega⟩
@@ -58,18 +58,18 @@ theorem parse_good (fx : Bool) : ∀ f : Nat,
         have h1 := takeIdent_lt (skipWs s) (by simpa using hne)
         have h2 := skipWs_len (takeIdent (skipWs s)).2
         split
-        · exact fin_good _ _ _ _ _ _ (by omega) (by omega)
+        · exact fin_good _ _ _ _ _ (by omega) (by omega)
         · rename_i c r heq
           have hl : (skipWs (takeIdent (skipWs s)).2).length = r.length + 1 := by rw [heq]; simp
           split
-          · exact fin_good _ _ _ _ _ _ (by omega) (by omega)
+          · exact fin_good _ _ _ _ _ (by omega) (by omega)
           · have h3 := skipWs_len r
             have hg := ihL (skipWs r) [] (by omega)
             split
             · rename_i params s2 hpl
               rw [hpl] at hg
               simp only [Good] at hg
-              exact fin_good _ _ _ _ _ _ (by omega) (by omega)
+              exact fin_good _ _ _ _ _ (by omega) (by omega)
             · simp [Good]
             · rename_i x hpl
               rw [hpl] at hg
@@ -77,7 +77,7 @@ theorem parse_good (fx : Bool) : ∀ f : Nat,
     · intro s acc hf
       unfold paramLoop
       split
-      · split <;> simp [Good, *]
+      · simp [Good]
       · rename_i c r
         split
         · simp [Good]
@@ -85,7 +85,7 @@ theorem parse_good (fx : Bool) : ∀ f : Nat,
           split
           · simp [Good]
           · split
-            · split <;> simp [Good, *]
+            · simp [Good]
             · rename_i c2 r2 heq
               have h1 := skipWs_len (takeIdent (c :: r)).2
               have h1' := takeIdent_len (c :: r)
@@ -100,7 +100,7 @@ theorem parse_good (fx : Bool) : ∀ f : Nat,
                 simp only [Good] at hg
                 have h4 := skipWs_len s4
                 split
-                · split <;> simp [Good, *]
+                · simp [Good]
                 · rename_i c5 r5 heq5
                   rw [heq5] at h4
                   have h6 : (if (c5 == 44) = true then skipWs r5 else c5 :: r5).length ≤ (c5 :: r5).length := by
@@ -114,130 +114,118 @@ theorem parse_good (fx : Bool) : ∀ f : Nat,
                 rw [hpc] at hg
                 exact hg
 
-/-- every crash an outcome can be is a KNOWN site of the unchanged code -/
-def OnlyKnown {α : Type} (fx : Bool) (o : Out α) : Prop :=
-  ∀ x, o = .crash x → x.known = true ∧ fx = false
+/-- `o` is not a crash -/
+def NoCrash {α : Type} (o : Out α) : Prop := ∀ x, o ≠ .crash x
 
-theorem asTypeInfo_known (fx : Bool) (n : Node) : OnlyKnown fx (asTypeInfo fx n) := by
-  fun_induction asTypeInfo fx n <;> intro x hx <;> simp_all [OnlyKnown] <;> (subst_vars; rfl)
+theorem NoCrash.ok {α : Type} (a : α) : NoCrash (Out.ok a) := by intro x h; cases h
+theorem NoCrash.fail {α : Type} : NoCrash (Out.fail : Out α) := by intro x h; cases h
 
-theorem OnlyKnown.ok {α : Type} (fx : Bool) (a : α) : OnlyKnown fx (Out.ok a) := by intro x h; cases h
-theorem OnlyKnown.fail {α : Type} (fx : Bool) : OnlyKnown fx (Out.fail : Out α) := by intro x h; cases h
+theorem asTypeInfo_noCrash (n : Node) : NoCrash (asTypeInfo n) := by
+  fun_induction asTypeInfo n <;> intro x hx <;> simp_all [NoCrash]
 
-theorem collLoop_known (fx : Bool) (ps : Params) (acc : List (Str × Ty)) : OnlyKnown fx (collLoop fx ps acc) := by
+theorem collLoop_noCrash (ps : Params) (acc : List (Str × Ty)) : NoCrash (collLoop ps acc) := by
   induction ps generalizing acc with
-  | nil => simp [collLoop, OnlyKnown]
+  | nil => simp [collLoop, NoCrash]
   | cons p r ih =>
     obtain ⟨name, cls⟩ := p
     unfold collLoop
-    have ha := asTypeInfo_known fx cls
+    have ha := asTypeInfo_noCrash cls
     cases name with
-    | none =>
-      cases fx
-      · intro x hx; simp at hx; subst hx; simp [Site.known]
-      · simpa using ih acc
+    | none => simpa using ih acc
     | some nm =>
       simp only []
       split
       · exact ih _
-      · exact OnlyKnown.fail fx
-      · rename_i x hx; intro y hy; cases hy; exact ha x hx
+      · exact NoCrash.fail
+      · rename_i x hx; exact absurd hx (ha x)
 
-theorem component_known (fx : Bool) (cls : Node) : OnlyKnown fx (component fx cls) := by
+theorem component_noCrash (cls : Node) : NoCrash (component cls) := by
   unfold component
-  have ha := asTypeInfo_known fx cls
+  have ha := asTypeInfo_noCrash cls
   split
   · split
-    · cases fx
-      · intro x hx; simp at hx; subst hx; simp [Site.known]
-      · simp only [if_true]
-        split
-        · exact OnlyKnown.ok _ _
-        · exact OnlyKnown.fail _
-        · rename_i x hx; intro y hy; cases hy; exact ha x hx
+    · split
+      · exact NoCrash.ok _
+      · exact NoCrash.fail
+      · rename_i x hx; exact absurd hx (ha x)
     · rename_i c _ _
-      have hc := asTypeInfo_known fx c
+      have hc := asTypeInfo_noCrash c
       split
-      · exact OnlyKnown.ok _ _
-      · exact OnlyKnown.fail _
-      · rename_i x hx; intro y hy; cases hy; exact hc x hx
+      · exact NoCrash.ok _
+      · exact NoCrash.fail
+      · rename_i x hx; exact absurd hx (hc x)
   · split
-    · exact OnlyKnown.ok _ _
-    · exact OnlyKnown.fail _
-    · rename_i x hx; intro y hy; cases hy; exact ha x hx
+    · exact NoCrash.ok _
+    · exact NoCrash.fail
+    · rename_i x hx; exact absurd hx (ha x)
 
-theorem typesLoop_known (fx : Bool) (ps : Params) : OnlyKnown fx (typesLoop fx ps) := by
+theorem typesLoop_noCrash (ps : Params) : NoCrash (typesLoop ps) := by
   induction ps with
-  | nil => simp [typesLoop, OnlyKnown]
+  | nil => simp [typesLoop, NoCrash]
   | cons p r ih =>
     obtain ⟨name, cls⟩ := p
     unfold typesLoop
-    have hc := component_known fx cls
+    have hc := component_noCrash cls
     split
     · split
-      · exact OnlyKnown.ok _ _
-      · exact OnlyKnown.fail _
-      · rename_i x hx; intro y hy; cases hy; exact ih x hx
-    · exact OnlyKnown.fail _
-    · rename_i x hx; intro y hy; cases hy; exact hc x hx
+      · exact NoCrash.ok _
+      · exact NoCrash.fail
+      · rename_i x hx; exact absurd hx (ih x)
+    · exact NoCrash.fail
+    · rename_i x hx; exact absurd hx (hc x)
 
-theorem tail_known (fx : Bool) (colls : List (Str × Ty)) (count : Nat) (params : Params) (h : count ≤ params.length) :
-    OnlyKnown fx (if count ≤ params.length then
-          (match typesLoop fx (params.take count) with
+/-- `ast.params[:count]` is in bounds: `count` is `len(params)` or `len(params) - 1` -/
+theorem tail_noCrash (colls : List (Str × Ty)) (count : Nat) (params : Params) (h : count ≤ params.length) :
+    NoCrash (if count ≤ params.length then
+          (match typesLoop (params.take count) with
            | .ok ts => (Out.ok { isComposite := true, types := ts, collections := colls } : Out PResult)
            | .fail => .fail
            | .crash x => .crash x)
         else .crash .paramsSlice) := by
   simp only [h, if_true]
-  have ht := typesLoop_known fx (params.take count)
+  have ht := typesLoop_noCrash (params.take count)
   split
-  · exact OnlyKnown.ok _ _
-  · exact OnlyKnown.fail _
-  · rename_i x hx; intro y hy; cases hy; exact ht x hx
+  · exact NoCrash.ok _
+  · exact NoCrash.fail
+  · rename_i x hx; exact absurd hx (ht x)
 
-theorem interpret_known (fx : Bool) (input : Str) (ast : Node) : OnlyKnown fx (interpret fx input ast) := by
+theorem interpret_noCrash (input : Str) (ast : Node) : NoCrash (interpret input ast) := by
   unfold interpret
   split
   · simp only []
     cases hl : ast.params.getLast? with
-    | none =>
-      simp only []
-      cases fx
-      · intro x hx; simp at hx; subst hx; simp [Site.known]
-      · simpa using OnlyKnown.ok _ _
+    | none => simpa using NoCrash.ok _
     | some pr =>
       obtain ⟨o, lastCls⟩ := pr
       simp only []
       by_cases hcoll : kCOLLECTION.isPrefixOf lastCls.name = true
       · simp only [hcoll, if_true]
-        have hcl := collLoop_known fx lastCls.params []
+        have hcl := collLoop_noCrash lastCls.params []
         split
-        · exact tail_known fx _ _ _ (by omega)
-        · exact OnlyKnown.fail _
-        · rename_i x hx; intro y hy; cases hy; exact hcl x hx
+        · exact tail_noCrash _ _ _ (by omega)
+        · exact NoCrash.fail
+        · rename_i x hx; exact absurd hx (hcl x)
       · simp only [hcoll]
-        exact tail_known fx _ _ _ (Nat.le_refl _)
-  · have hc := component_known fx ast
+        exact tail_noCrash _ _ _ (Nat.le_refl _)
+  · have hc := component_noCrash ast
     split
-    · exact OnlyKnown.ok _ _
-    · exact OnlyKnown.fail _
-    · rename_i x hx; intro y hy; cases hy; exact hc x hx
+    · exact NoCrash.ok _
+    · exact NoCrash.fail
+    · rename_i x hx; exact absurd hx (hc x)
 
-theorem parseType_known (fx : Bool) (input : Str) : OnlyKnown fx (parseType fx input) := by
+/-- parseType never panics, for every byte string: the recursion fuel `|input| + 1` is never
+exhausted, `t.input[startIndex:endIndex]` and `ast.params[:count]` are in bounds -/
+theorem parseType_noCrash (input : Str) : NoCrash (parseType input) := by
   unfold parseType
-  have hg := (parse_good fx (input.length + 1)).1 input (Nat.le_refl _)
+  have hg := (parse_good (input.length + 1)).1 input (Nat.le_refl _)
   split
-  · exact OnlyKnown.ok _ _
+  · exact NoCrash.ok _
   · rename_i x hx
     rw [hx] at hg
-    intro y hy; cases hy
-    simp only [Good] at hg
-    exact ⟨by rw [hg.1]; rfl, hg.2⟩
-  · exact interpret_known fx input _
+    exact hg.elim
+  · exact interpret_noCrash input _
 
 /-! ### getCassandraType -/
-
-def NoCrash {α : Type} (o : Out α) : Prop := ∀ x, o ≠ .crash x
 
 theorem trimLeft_len (s : Str) : (trimLeft s).length ≤ s.length := by
   induction s with
@@ -371,175 +359,10 @@ theorem getCT_noCrash : ∀ (f : Nat) (name : Str), name.length + 1 ≤ f → No
 theorem getCassandraType_noCrash (s : Str) : NoCrash (getCassandraType s) :=
   getCT_noCrash _ s (Nat.le_refl _)
 
-theorem getTypeInfoFx_noCrash (fx : Bool) (s : Str) : NoCrash (getTypeInfoFx fx s) := by
-  unfold getTypeInfoFx; split <;> exact getCassandraType_noCrash _
+theorem getTypeInfo_noCrash (s : Str) : NoCrash (getTypeInfo s) := by
+  unfold getTypeInfo; split <;> exact getCassandraType_noCrash _
 
-theorem getTypeInfo_noCrash (s : Str) : NoCrash (getTypeInfo s) := getTypeInfoFx_noCrash false s
-
-theorem parseType_fixed_noCrash (s : Str) : NoCrash (parseType true s) := by
-  intro x hx
-  have := (parseType_known true s x hx).2
-  cases this
-
-/-! ### an independent necessary condition for the end-of-input crash: unbalanced parentheses -/
-
-/-- #'(' − #')' -/
-def bal : Str → Int
-  | [] => 0
-  | c :: r => (if c = 40 then 1 else if c = 41 then -1 else 0) + bal r
-
-theorem bal_skipWs (s : Str) : bal (skipWs s) = bal s := by
-  induction s with
-  | nil => rfl
-  | cons c r ih =>
-    unfold skipWs
-    split
-    · rename_i h
-      have : c ≠ 40 ∧ c ≠ 41 := by
-        simp [isWs] at h; omega
-      simp [bal, this.1, this.2, ih]
-    · rfl
-
-theorem bal_takeIdent (s : Str) : bal (takeIdent s).2 = bal s := by
-  induction s with
-  | nil => rfl
-  | cons c r ih =>
-    unfold takeIdent
-    split
-    · rename_i h
-      have : c ≠ 40 ∧ c ≠ 41 := by
-        simp [isIdent] at h; omega
-      simp [bal, this.1, this.2, ih]
-    · rfl
-
-/-- parser results and the parenthesis balance of what they consumed -/
-def BalC (o : Out (Node × Str)) (s : Str) : Prop :=
-  match o with
-  | .ok (_, s') => bal s' = bal s
-  | .fail => True
-  | .crash x => x = .paramsEof → 1 ≤ bal s
-
-def BalL (o : Out (Params × Str)) (s : Str) : Prop :=
-  match o with
-  | .ok (_, s') => bal s' = bal s + 1
-  | .fail => True
-  | .crash x => x = .paramsEof → 0 ≤ bal s
-
-theorem parse_bal : ∀ f : Nat,
-    (∀ s, BalC (parseClass false f s) s) ∧ (∀ s acc, BalL (paramLoop false f s acc) s) := by
-  intro f
-  induction f with
-  | zero =>
-    constructor
-    · intro s; simp [parseClass, BalC]
-    · intro s acc; simp [paramLoop, BalL]
-  | succ f ih =>
-    obtain ⟨ihC, ihL⟩ := ih
-    constructor
-    · intro s
-      unfold parseClass
-      simp only []
-      have e1 : bal (skipWs (takeIdent (skipWs s)).2) = bal s := by
-        rw [bal_skipWs, bal_takeIdent, bal_skipWs]
-      split
-      · simp [BalC]
-      · split
-        · split
-          · simp only [BalC]; rw [e1]
-          · simp [BalC]
-        · rename_i c r heq
-          split
-          · split
-            · simp only [BalC]; rw [e1]
-            · simp [BalC]
-          · rename_i hc
-            have hc' : c = 40 := by simpa using hc
-            have e2 : bal (skipWs r) = bal s - 1 := by
-              rw [bal_skipWs]
-              have : bal (c :: r) = bal s := by rw [← heq]; exact e1
-              simp [bal, hc'] at this; omega
-            have hl := ihL (skipWs r) []
-            split
-            · rename_i params s2 hpl
-              rw [hpl] at hl
-              simp only [BalL] at hl
-              split
-              · simp only [BalC]; omega
-              · simp [BalC]
-            · simp [BalC]
-            · rename_i x hpl
-              rw [hpl] at hl
-              simp only [BalL, BalC] at *
-              intro hx; have := hl hx; omega
-    · intro s acc
-      unfold paramLoop
-      split
-      · simp [BalL, bal]
-      · rename_i c r
-        split
-        · rename_i hc
-          have hc' : c = 41 := by simpa using hc
-          simp [BalL, bal, hc']; omega
-        · rename_i hc
-          have hc41 : c ≠ 41 := by simpa using hc
-          simp only []
-          split
-          · simp [BalL]
-          · have e1 : bal (skipWs (takeIdent (c :: r)).2) = bal (c :: r) := by rw [bal_skipWs, bal_takeIdent]
-            split
-            · rename_i heq
-              rw [heq] at e1
-              simp only [if_false, BalL]
-              intro _; rw [← e1]; simp [bal]
-            · rename_i c2 r2 heq
-              rw [heq] at e1
-              have e3 : bal (if (c2 == 58) = true then skipWs r2 else c :: r) = bal (c :: r) := by
-                split
-                · rename_i h58
-                  have : c2 = 58 := by simpa using h58
-                  rw [bal_skipWs, ← e1]; simp [bal, this]
-                · rfl
-              have hC := ihC (if (c2 == 58) = true then skipWs r2 else c :: r)
-              split
-              · rename_i node s4 hpc
-                rw [hpc] at hC
-                simp only [BalC] at hC
-                have e4 : bal (skipWs s4) = bal (c :: r) := by rw [bal_skipWs, hC, e3]
-                split
-                · rename_i heq5
-                  rw [heq5] at e4
-                  simp only [if_false, BalL]
-                  intro _; rw [← e4]; simp [bal]
-                · rename_i c5 r5 heq5
-                  rw [heq5] at e4
-                  have e6 : bal (if (c5 == 44) = true then skipWs r5 else c5 :: r5) = bal (c :: r) := by
-                    split
-                    · rename_i h44
-                      have : c5 = 44 := by simpa using h44
-                      rw [bal_skipWs, ← e4]; simp [bal, this]
-                    · exact e4
-                  have hL := ihL (if (c5 == 44) = true then skipWs r5 else c5 :: r5)
-                    ((if (c2 == 58) = true then some (takeIdent (c :: r)).1 else none, node) :: acc)
-                  revert hL
-                  generalize paramLoop false f _ _ = o
-                  intro hL
-                  cases o with
-                  | ok a => obtain ⟨ps, s'⟩ := a; simp only [BalL] at *; omega
-                  | fail => simp [BalL]
-                  | crash x => simp only [BalL] at *; intro hx; have := hL hx; omega
-              · simp [BalL]
-              · rename_i x hpc
-                rw [hpc] at hC
-                simp only [BalC, BalL] at *
-                intro hx; have := hC hx; omega
-
-/-- the parser phase of parseType crashes at end of input only on strings with more '(' than ')' -/
-theorem eof_unbalanced (s : Str) (h : parseClass false (s.length + 1) s = .crash .paramsEof) : 1 ≤ bal s := by
-  have := (parse_bal (s.length + 1)).1 s
-  rw [h] at this
-  exact this rfl
-
-/-! ### output size of the fixed apacheToCassandraType -/
+/-! ### output size of apacheToCassandraType -/
 
 theorem replaceAll_len (old new : Str) (k : Nat) (hk : 1 ≤ k) (_hold : 1 ≤ old.length) (h : new.length ≤ k * old.length) :
     ∀ (n : Nat) (s : Str), (replaceAll old new n s).length ≤ k * s.length := by
@@ -619,10 +442,9 @@ theorem translateFields_len (s cur : Str) : (translateFields s cur).length ≤ 9
     · have := ih (c :: cur)
       simp at *; omega
 
-/-- with props/C05.fix-8.diff the translation of a Java class string is at most 18 times its length -/
-theorem apacheFixed_len (t : Str) : (apacheToCassandraTypeFx true t).length ≤ 18 * t.length := by
-  unfold apacheToCassandraTypeFx
-  simp only [if_true]
+/-- the translation of a Java class string is at most 18 times its length -/
+theorem apache_len (t : Str) : (apacheToCassandraType t).length ≤ 18 * t.length := by
+  unfold apacheToCassandraType
   have h1 := replace_len t kAPACHE [] 1 (by omega) (by simp)
   have h2 := replace_len (replace t kAPACHE []) [40] [60] 1 (by omega) (by simp)
   have h3 := replace_len (replace (replace t kAPACHE []) [40] [60]) [41] [62] 1 (by omega) (by simp)
